@@ -143,6 +143,9 @@ def front_one(case):
 
 def run(chk):
     chk.level = "proof"
+    from props import alg_forwarding
+    from cola.linalg.inverse.gmres import GMRES as _GMRES
+    alg_forwarding.forwarding(chk, "C13", _GMRES)
     chk.trust("vcgen/idx.py + vcgen/kidx.py: NumPy primitives as index transformers; sums are atoms sumf(lo, hi, lambda); the batched dense solve is the atom "
               "solve_lin(m, lambda M, lambda rhs) (dependency contract: M y = rhs)")
     chk.assume("callee contract (C15): arnoldi(A, r0, m, tol) returns Q with orthonormal columns, first column r0/||r0||, and H with A Q[:, :m] = Q H, using at most "
